@@ -8,6 +8,7 @@ import (
 	"os"
 	"path/filepath"
 	"runtime"
+	"runtime/debug"
 	"strings"
 	"time"
 
@@ -173,6 +174,13 @@ func released(dir, what string) *h.Violation {
 }
 
 func Prop(c Case, x *h.Ctx) *h.Violation {
+	// no garbage collection while a case runs: a descriptor or mapping that Close forgot must not be "released" behind
+	// its back by a finalizer of an object that merely became unreachable (os.File and the mmap reader have one)
+	old := debug.SetGCPercent(-1)
+	defer func() {
+		debug.SetGCPercent(old)
+		runtime.GC()
+	}()
 	dir, done := h.Scratch("c19")
 	defer done()
 	x.Label("kind=" + c.Kind)
